@@ -179,4 +179,37 @@ Section Perm.
     rewrite Ea at 1.
     symmetry. apply (multi_value_perm_rows erfR opa ns _ _ HPm).
   Qed.
+
+  (* ---- C03: the VALUE under a consistent permutation of the sources.
+     An element of rd is (row of a_jk, (N_j, n_selected_j, pair table_j)) of one dataset.
+     perm_row: the sources are re-ordered (new source i is old source p[i]), the pair table is
+     labelled with the new indices.  relab_row: the same configuration in the old labelling. *)
+  Definition perm_row (p : list nat) (x : list R * ddata) : list R * ddata :=
+    (map (fun i => nth i (fst x) 0) p, snd x).
+  Definition relab_row (p : list nat) (x : list R * ddata) : list R * ddata :=
+    (fst x, (fst (snd x), map (relabel p) (snd (snd x)))).
+
+  Theorem multi_value_perm_sources opa ns K p (rd : list (list R * ddata)) :
+    Permutation p (seq 0 K) ->
+    Forall (fun x => length (fst x) = K /\ NoDup (map pair_of (snd (snd x)))
+                     /\ Forall (fun v => (src_of v < K)%nat) (snd (snd x))) rd ->
+    multi_value Nm opa ns (f_j Nm (map fst (map (perm_row p) rd))) (map rd_of (map (perm_row p) rd))
+    = multi_value Nm opa ns (f_j Nm (map fst (map (relab_row p) rd))) (map rd_of (map (relab_row p) rd)).
+  Proof.
+    intros HP Hrd.
+    assert (Ef : f_j Nm (map fst (map (perm_row p) rd)) = f_j Nm (map fst (map (relab_row p) rd))).
+    { apply f_j_perm_sources. induction Hrd as [|x rd (HK & _ & _) _ IH]; [constructor|].
+      cbn [map]. constructor; [|exact IH]. unfold perm_row, relab_row. cbn [fst].
+      apply (perm_map_nth (fst x) 0 p). pose proof HP as HP'. rewrite <- HK in HP'. exact HP'. }
+    assert (Ed : map rd_of (map (perm_row p) rd) = map rd_of (map (relab_row p) rd)).
+    { rewrite !map_map. apply map_ext_in. intros x Hx. rewrite Forall_forall in Hrd.
+      destruct (Hrd x Hx) as (HK & Hnd & Hsrc).
+      unfold rd_of, perm_row, relab_row. cbn [fst snd]. f_equal.
+      apply (nth_ext _ _ 0 0); [now rewrite !sw_ratio_length|].
+      intros e He. rewrite sw_ratio_length in He.
+      pose proof HP as HP'. rewrite <- HK in HP', Hsrc.
+      apply (stacked_ratio_perm_sources erfR (fst x) _ (snd (snd x)) p e);
+        [exact HP'|exact Hnd|exact Hsrc|exact He]. }
+    rewrite Ef, Ed. reflexivity.
+  Qed.
 End Perm.
